@@ -500,7 +500,7 @@ def rule_base_state(rep: Report, repo: Repo):
 # ---------------------------------------------------------------------------
 
 
-def rule_projector_call_sites(rep: Report, repo: Repo):
+def rule_projector_call_sites(rep: Report, repo: Repo, with_op_eval: bool = True):
     R = "E6.sites"
     n = 0
     for mod in ("block_diagonalization", "linalg"):
@@ -514,7 +514,13 @@ def rule_projector_call_sites(rep: Report, repo: Repo):
                 rep.check(ok, R, f"{mod}::{fn} `ComplementProjector({', '.join(args)})` passes (right vectors, left vectors)",
                           f"argument roles {roles}", repo.loc(mod, node))
     rep.floor(R, "ComplementProjector construction sites", n, 4)
-    _operator_to_blockseries(rep, repo, R)
+    if with_op_eval:
+        _operator_to_blockseries(rep, repo, R)
+
+
+def rule_projector_construction_sites(rep: Report, repo: Repo):
+    """Only the argument roles at the construction sites (what C17 says about the class's users)."""
+    rule_projector_call_sites(rep, repo, with_op_eval=False)
 
 
 def _strip_seq(e):
